@@ -658,6 +658,9 @@ def binding_stem_lint(repo, rep, rule, modules, report=True):
                 if len(ts) != 1:
                     continue
                 v = st.value
+                # a quantifier over a collection read from a feature map: `x_is_cpu_produced = any(.. for p in op.ifm.ops)`
+                if isinstance(v, ast.Call) and isinstance(v.func, ast.Name) and v.func.id in ("any", "all", "len", "list", "sum") and v.args and isinstance(v.args[0], (ast.GeneratorExp, ast.ListComp)):
+                    v = v.args[0].generators[0].iter
                 while isinstance(v, ast.Call) and isinstance(v.func, ast.Attribute) and not v.args:
                     v = v.func.value
                 if not isinstance(v, ast.Attribute):
@@ -718,3 +721,67 @@ def swapped_argument_lint(repo, rep, rule, modules, report=True):
                     elif not ok:
                         print("SWAP", mname, q, str(norm(c))[:80], leaf, "->", params[i])
     return n
+
+
+def loop_shared_clone_lint(repo, rep, rule, modules, what):
+    """A record cloned once *before* a loop, whose fields are stored inside the loop and which is handed on inside the loop (call argument,
+    or assigned to an attribute of another object), is one object shared by everything it was handed to: after the loop all of them carry the
+    last iteration's values. (A clone taken inside the loop, or a name re-bound in the loop, is a fresh object per iteration.)"""
+    nloops = 0
+    for mn in modules:
+        m = repo.mod(mn)
+        for q, fn in m.functions.items():
+            if "." in q and q.split(".")[0] in m.functions:
+                continue
+            for lp in walk_no_nested(fn):
+                if not isinstance(lp, (ast.For, ast.While)):
+                    continue
+                nloops += 1
+                inside = set(id(x) for x in ast.walk(lp))
+                for st in walk_no_nested(fn):
+                    if not (isinstance(st, ast.Assign) and id(st) not in inside and st.lineno < lp.lineno and isinstance(st.targets[0], ast.Name) and isinstance(st.value, ast.Call)
+                            and isinstance(st.value.func, ast.Attribute) and st.value.func.attr == "clone"):
+                        continue
+                    n = st.targets[0].id
+                    if any(isinstance(x, ast.Assign) and any(isinstance(t, ast.Name) and t.id == n for t in x.targets) for x in ast.walk(lp)):
+                        continue
+                    stores = [x for x in ast.walk(lp) if isinstance(x, ast.Assign) and isinstance(x.targets[0], ast.Attribute) and isinstance(x.targets[0].value, ast.Name) and x.targets[0].value.id == n]
+                    escapes = [x for x in ast.walk(lp) if (isinstance(x, ast.Call) and any(isinstance(a, ast.Name) and a.id == n for a in list(x.args) + [k.value for k in x.keywords]))
+                               or (isinstance(x, ast.Assign) and isinstance(x.value, ast.Name) and x.value.id == n and isinstance(x.targets[0], ast.Attribute))]
+                    if stores and escapes:
+                        rep.bad(rule, f"{m.rel}:{q}", f"`{n} = {str(norm(st.value))[:50]}` is taken once before the loop, `{str(norm(stores[0]))[:60]}` stores into it in every iteration and it is handed on inside the loop",
+                                f"every object it is handed to shares the one record: after the loop all carry the values of the last iteration ({what})")
+    from ..core import AnalysisError
+
+    if nloops < 50:
+        raise AnalysisError(f"loop_shared_clone_lint: only {nloops} loops scanned")
+    rep.ok(rule, "ethosu/vela", f"{nloops} loops scanned for a record cloned outside, stored into and handed on inside")
+
+
+def idle_core_windows(repo, rep, rule):
+    """(o) WEIGHT1_BASE / LENGTH and SCALE1_BASE / LENGTH are persistent registers: an operation whose stream feeds core 0 only must still
+    program the second core of a two-core accelerator with length 0, or that core reads the previous operation's window in this
+    operation's region. generate_weights / generate_biases are interpreted for one address range on a two-core and a one-core architecture."""
+    from ..absint import AList, AObj, Interp
+    from ..core import AnalysisError
+
+    gen = repo.mod("register_command_stream_generator")
+    it = Interp(repo, gen, stubs={"check_alignment", "check_length"})
+    for fname, base1, len1 in (("generate_weights", "cmd1.NPU_SET_WEIGHT1_BASE", "cmd1.NPU_SET_WEIGHT1_LENGTH"), ("generate_biases", "cmd1.NPU_SET_SCALE1_BASE", "cmd1.NPU_SET_SCALE1_LENGTH")):
+        for ncores in (2, 1):
+            def mk(ncores=ncores):
+                return [AObj("emit"), AList([AObj("w0", {"address": 64, "length": 160, "region": 2})]), AObj("arch", {"ncores": ncores})], {}
+
+            ps = [p for p in it.run(fname, mk) if p.kind == "return"]
+            if not ps:
+                raise AnalysisError(f"{fname}: no returning path with one range on {ncores} core(s)")
+            for p in ps:
+                calls = [(c[0], [str(a) for a in c[1]]) for c in p.args[0][0].calls]
+                l1 = [a for nm, a in calls if nm == "cmd1_with_offset" and a and a[0] == len1]
+                if ncores == 2:
+                    rep.check(len(l1) == 1 and l1[0][1] == "0", rule, f"ethosu/vela/register_command_stream_generator.py:{fname}", f"one range, two cores: `{len1}` is written with 0",
+                              f"emitted {[a for _, a in calls if a and a[0] in (base1, len1)]}: core 1 keeps the window of the previous operation and reads it in this operation's region "
+                              "(demonstrated: FULLY_CONNECTED then a 1-channel convolution on ethos-u65-512: core 1 reads [0x21430, 0x41450) of a 320-byte fast-scratch tensor)")
+                else:
+                    rep.check(not l1, rule, f"ethosu/vela/register_command_stream_generator.py:{fname}", f"one range, one core: `{len1}` is not written", f"emitted {l1}")
+    rep.floor(rule, 4)
